@@ -104,7 +104,23 @@ theorem cp_attachConv (s : St) (n c : String) (h : CP s.tags) : CP (attachConv s
         simp only [Bool.not_eq_true] at hcond
         exact ⟨hcond.1.2, hcond.2⟩
 
-theorem cp_detachConv (s : St) (n c : String) (h : CP s.tags) : CP (detachConv s n c).tags := by
+/-- `outputDropped` keeps `convs`, `mainT`, `subT` of every tag -- CHANGED (dropped): new -/
+theorem cp_outputDropped (s : St) (choice : Option String) (h : CP s.tags) : CP (outputDropped s choice).tags := by
+  rw [outputDropped_eq]
+  split
+  · rw [MgrSettle.startTagging_tags, MgrSettle.invalidatedDuringTaggingJob_tags]
+    apply cp_inherit
+    apply cp_map (fun _ t => odF s.all t) _ h
+    intro k t ht
+    unfold odF
+    split
+    · exact ht
+    · exact ht
+  · exact h
+
+-- CHANGED (dropped): `detachConv` takes the tagging choice and may run `outputDropped`
+theorem cp_detachConv (s : St) (n c : String) (choice : Option String) (h : CP s.tags) :
+    CP (detachConv s n c choice).tags := by
   unfold detachConv
   split
   · exact h
@@ -115,7 +131,9 @@ theorem cp_detachConv (s : St) (n c : String) (h : CP s.tags) : CP (detachConv s
       apply h n t ht
       intro e; rw [e] at hc; exact hc rfl
     dsimp only
-    split <;> exact h1
+    split
+    · exact cp_outputDropped _ _ h1
+    · exact h1
 
 theorem cp_markUpdate (s : St) (name : String) (a d : List Nat) (h : CP s.tags) :
     CP (markUpdate s name a d).1.tags := by
@@ -289,7 +307,7 @@ theorem cp_step (s : St) (e : Ev) (st : Started)
         rw [MgrSettle.startConverter_tags]
         unfold ucAttach ucDetach
         apply cp_foldl _ (fun s c hs => cp_attachConv s name c hs)
-        exact cp_foldl _ (fun s c hs => cp_detachConv s name c hs) _ _ h
+        exact cp_foldl _ (fun s c hs => cp_detachConv s name c st.tag hs) _ _ h
   | markAdd name ids =>
     rw [step_markAdd_eq]
     split
@@ -329,7 +347,7 @@ theorem cp_step (s : St) (e : Ev) (st : Started)
         dsimp only
         apply cp_foldl _ (fun s r hs => cp_delRefBy s r name hs)
         apply cp_sdel
-        exact cp_foldl _ (fun s c hs => cp_detachConv s name c hs) _ _ h
+        exact cp_foldl _ (fun s c hs => cp_detachConv s name c st.tag hs) _ _ h
   | updName name new =>
     rw [step_updName_eq]
     split
